@@ -152,12 +152,16 @@ class Case:
         self.combo = None
         self.half = list(self.entries)
         if mode == "linear" and rng.random() < 0.2:
-            self.combo = rng.choice(["c+c", "c.extend(copy)", "copy.extend(c)", "c+=c", "frozen+frozen"])
-            self.entries = self.half + self.half
-            self.A = np.vstack([self.A, self.A])
-            self.c = np.concatenate([self.c, self.c])
-            self.gen = self.gen + self.gen
-            self.G = 2 * gi
+            self.combo = rng.choice(["c+c", "c.extend(copy)", "copy.extend(c)", "c+=c", "frozen+frozen",
+                                     "(c+c)+c", "c+(c+c)", "c.extend(copy);c.extend(first)", "(c+c)+(c+c)"])
+            # repeated combination: the gate parameters of the appended circuit then overlap only PARTLY with those
+            # already in the accumulated circuit
+            reps = {"(c+c)+c": 3, "c+(c+c)": 3, "c.extend(copy);c.extend(first)": 3, "(c+c)+(c+c)": 4}.get(self.combo, 2)
+            self.entries = self.half * reps
+            self.A = np.vstack([self.A] * reps)
+            self.c = np.concatenate([self.c] * reps)
+            self.gen = self.gen * reps
+            self.G = reps * gi
 
     # ---- library objects
     def build_circuit(self, compiled=False):
@@ -193,6 +197,17 @@ class Case:
             c += c.freeze()
         elif self.combo == "frozen+frozen":
             c = c.freeze() + c.freeze()
+        elif self.combo == "(c+c)+c":
+            c = (c + c) + c
+        elif self.combo == "c+(c+c)":
+            c = c + (c + c)
+        elif self.combo == "c.extend(copy);c.extend(first)":
+            first = c.get_mutable_copy()
+            c.extend(c.get_mutable_copy())
+            c.extend(first)
+        elif self.combo == "(c+c)+(c+c)":
+            d = c + c
+            c = d + d
         return compile_parametric_circuit(c) if compiled else c
 
     def build_state(self, compiled=False):
